@@ -90,3 +90,11 @@ Theorem C02_source_waiter_context : forall bs,
   skip_flag (("skipReadCtxKey", VB false) :: bs) = false.
 Proof. intros bs. split; [exact (proj2 (tie_with_skip_read bs))|reflexivity]. Qed.
 Print Assumptions C02_source_waiter_context.
+
+(* ---- the provenance predicate of the correspondence check is proved of the model ---- *)
+From Cache Require Import FailoverRun FailoverObs FailoverObsProofs.
+
+Theorem C02_trace_predicate_sound : forall fe nilb, nilb 0 = true ->
+  forall c ls s, frun fe nilb c f0 ls = Some s -> C02_obs (flog s) = true.
+Proof. exact c02_obs_holds. Qed.
+Print Assumptions C02_trace_predicate_sound.
